@@ -5,8 +5,11 @@ T1  named constants and hard-coded widths/masks/periods at anchored sites -> Gen
 T2  the 2048-entry table K_SELECT_IN_BYTE                               -> Gen/SelTable.v
 T4  struct field lists (serde schema)                                     -> Gen/Schema.v
 
-A site that can no longer be located is an error (exit 2): the obligation "the model's
-constants are the code's constants" is then broken and the caller reports it.
+A T1 site that can no longer be located keeps its reference value (tools/consts_baseline.json) and
+is listed in Gen/stale_sites.json: the obligation "the model's constants are the code's constants"
+is then broken for the properties whose Coq files mention that constant (tools/check.py).
+A table or schema that can no longer be read is an error (exit 2) for every property.
+T3 (tools/gen_leaves.py) is run from here too: Gen/Leaves{Utils,Line,SB}.v.
 Files are rewritten only when their content changes, so cached .vo files survive.
 """
 import os, re, sys
@@ -160,22 +163,47 @@ site("PFS_SHIFT", "src/quadwt/mod.rs", r"pub fn new\(sequence: &mut \[T\]\) -> S
 site("PFS_SHIFT_HQ", "src/quadwt/huffqwt.rs", r"pub fn new\(sequence: &mut \[T\]\) -> Self", r"PrefetchSupport::new\(&qv, (\w+)\);")
 
 
+BASELINE = os.path.join(os.path.dirname(os.path.abspath(__file__)), "consts_baseline.json")
+STALE = {}   # site name -> why it could not be re-read from the source (baseline value used)
+
+
 def gen_consts():
+    """Every site is re-read from the current source.  A site that can no longer be located keeps
+    the value recorded in tools/consts_baseline.json (the reference tree) and is listed in
+    Gen/stale_sites.json: the checks of the properties whose Coq files mention that constant then
+    report the obligation "the model's constants are the code's constants" as broken; the other
+    properties are not affected."""
+    import json
     out = ["(* GENERATED by tools/gen_from_src.py from /repo sources. Do not edit. *)",
            "From Coq Require Import NArith.", "Open Scope N_scope.", ""]
     cache = {}
     values = {}
+    try:
+        baseline = json.load(open(BASELINE))
+    except OSError:
+        baseline = {}
     for name, file, anchor, value, doc, env in SITES:
-        if file not in cache:
-            cache[file] = strip_comments(read(file))
-        body = fn_body(cache[file], anchor)
-        m = re.search(value, body)
-        if not m:
-            raise GenError("site %s: value pattern not found in %s after anchor" % (name, file))
-        v = const_expr(m.group(1), {k: values[a] for k, a in env.items()})
+        try:
+            if file not in cache:
+                try:
+                    cache[file] = strip_comments(read(file))
+                except OSError as e:
+                    raise GenError("cannot read %s: %s" % (file, e))
+            body = fn_body(cache[file], anchor)
+            m = re.search(value, body)
+            if not m:
+                raise GenError("site %s: value pattern not found in %s after anchor" % (name, file))
+            v = const_expr(m.group(1), {k: values[a] for k, a in env.items()})
+        except GenError as e:
+            if name not in baseline:
+                raise
+            v = int(baseline[name])
+            STALE[name] = str(e)
+            doc = "STALE: site not found in the current source, reference value kept"
         values[name] = v
         out.append("Definition %s : N := %d.%s" % (name, v, ("  (* %s *)" % doc) if doc else ""))
     out.append("")
+    gen_consts.values = values
     return "\n".join(out)
 
 
@@ -375,6 +403,17 @@ def main():
         return 2
     ch = write_if_changed(os.path.join(OUT, "Consts.v"), consts)
     print("gen: Consts.v %s" % ("rewritten" if ch else "unchanged"))
+    import json as _json
+    write_if_changed(os.path.join(OUT, "stale_sites.json"), _json.dumps(STALE, indent=0, sort_keys=True))
+    for k, v in sorted(STALE.items()):
+        print("gen: STALE site %s (%s)" % (k, v))
+    if "--write-baseline" in sys.argv:
+        if STALE:
+            print("refusing to write a baseline with stale sites")
+            return 2
+        with open(BASELINE, "w") as f:
+            _json.dump({k: str(v) for k, v in gen_consts.values.items()}, f, indent=0, sort_keys=True)
+        print("gen: baseline written (%d sites)" % len(gen_consts.values))
     try:
         tab = gen_seltable()
     except GenError as e:
@@ -391,6 +430,22 @@ def main():
     import json
     write_if_changed(os.path.join(OUT, "schema_ids.json"), json.dumps(idmap, indent=0, sort_keys=True))
     print("gen: Schema.v %s" % ("rewritten" if ch else "unchanged"))
+    # T3: the integer leaf functions, translated from the Rust source (tools/gen_leaves.py).
+    # A source the translator cannot read must not stop the other properties: a stub is written
+    # instead, so that exactly the obligations that depend on Proofs/LeavesOk.v no longer check.
+    import subprocess
+    for group, fname in (("utils", "LeavesUtils.v"), ("line", "LeavesLine.v"), ("sb", "LeavesSB.v")):
+        leaves = os.path.join(OUT, fname)
+        p = subprocess.run([sys.executable, os.path.join(os.path.dirname(os.path.abspath(__file__)), "gen_leaves.py"),
+                            "--repo", REPO, "--out", leaves, "--group", group],
+                           stdout=subprocess.PIPE, stderr=subprocess.STDOUT)
+        msg = p.stdout.decode(errors="replace").strip()
+        if p.returncode != 0:
+            one = " ".join(msg.split())[-300:].replace("*)", "* )").replace("(*", "( *")
+            write_if_changed(leaves, "(* gen_leaves failed: %s *)\nDefinition gen_leaves_failed : unit := tt.\n" % one)
+            print("gen: %s STUB (gen_leaves exit %d: %s)" % (fname, p.returncode, one))
+        else:
+            print("gen: %s ok" % fname)
     return 0
 
 
